@@ -13,7 +13,8 @@ Event log (a list of tuples; the position in the list is the global sequence num
   ("req", tid, step, pc, time, op)                 the step ends by yielding `op` (the effective op record)
   ("end", tid, step, time, how)                    the step ends the generator: exit | raise | ret | uncaught
   ("act", tid, step, time, kind, arg, effective)   in-step action: busy | wake | cancel | mktimer
-  ("tnew", i, time)  ("tcancel", i, time)  ("fire", i, k, time, ret)
+  ("tnew", i, time)  ("tstart", i, time)  ("tcancel", i, time)  ("fire", i, k, time, ret)
+                                                   tnew = Timer constructed, tstart = Timer.start() (the same instant unless started=False)
   ("sel", t_from, t_to, why)                       one virtual select: ready | advance | quiesce | horizon
   ("cyc", n, [[tid, priority], ...], nleft)        ready queue at the start of Scheduler.cycle number n
   ("srecv", sock, time, hex)  ("ssend", sock, time, marker, offered, accepted)
@@ -34,7 +35,7 @@ from collections import deque
 from ..runner import HarnessError, innermost_repo_frame
 from .world import VClock, TimeShim
 
-ACTIONS = ("busy", "wake", "cancel", "mktimer")
+ACTIONS = ("busy", "wake", "cancel", "mktimer", "starttimer")
 T0 = 1000.0
 
 
@@ -246,6 +247,7 @@ class Run(object):
     self.woken = {}
     self.due = {}                # tid -> absolute due of an outstanding timed request
     self.tdue = {}               # timer -> latest admissible next due
+    self.unstarted = {}          # timer constructed with started=False -> construction time
     self.holder = {}
     self.tasks = []
     self.timers = {}
@@ -549,6 +551,13 @@ class Run(object):
       self.emit(("act", tid, step, now, "mktimer", i, bool(ok)))
       if ok:
         self._mk_timer(i)
+    elif k == "starttimer":
+      nt = len(self.case.get("timers", []))
+      i = op.get("timer", 0) % nt if nt else None
+      ok = i is not None and i in self.unstarted
+      self.emit(("act", tid, step, now, "starttimer", i, bool(ok)))
+      if ok:
+        self._start_timer(i)
 
   # ------------------------------------------------------------------ timers
   def _cancel(self, i):
@@ -563,16 +572,36 @@ class Run(object):
     now = self.clock.now
     t = spec["t"]
     self.fires[i] = 0
+    started = bool(spec.get("started", True))
     self.emit(("tnew", i, now))
-    self.tdue[i] = now + t
+    if started:
+      self.emit(("tstart", i, now))
+      self.tdue[i] = now + t
+    else:
+      self.unstarted[i] = now
     kw = {}
     if spec.get("explicit_sched", True):
       kw["scheduler"] = self.sched
+    if not started:
+      kw["started"] = False
     tm = R.Timer(now + t if spec.get("abs") else t, self._fire, absoluteTime=bool(spec.get("abs")),
                  recurring=bool(spec.get("recurring")), args=(i,),
                  selfStoppable=bool(spec.get("self_stop", True)), **kw)
     self.timers[i] = tm
     self.timer_tid[id(tm)] = "T%d" % i
+
+  def _start_timer(self, i):
+    """Timer(started=False).start() at a later instant: a relative delay counts from now."""
+    spec = self.case["timers"][i]
+    now = self.clock.now
+    ctime = self.unstarted.pop(i)
+    self.emit(("tstart", i, now))
+    if i not in self.tcancelled:
+      self.tdue[i] = max(now, ctime + spec["t"]) if spec.get("abs") else now + spec["t"]
+    if spec.get("explicit_sched", True):
+      self.timers[i].start(self.sched)
+    else:
+      self.timers[i].start()
 
   def _fire(self, i):
     spec = self.case["timers"][i]
@@ -796,9 +825,10 @@ class Run(object):
       order = [["task", i] for i in range(len(self.tasks))] + [["timer", i] for i in range(len(case.get("timers", [])))]
     seen = set()
     for kind, i in order:
-      if (kind, i) in seen:
-        continue
-      seen.add((kind, i))
+      if kind != "advance":
+        if (kind, i) in seen:
+          continue
+        seen.add((kind, i))
       if kind == "task" and i < len(self.tasks):
         t = self.tasks[i]
         spec = case["tasks"][i]
@@ -807,6 +837,11 @@ class Run(object):
       elif kind == "timer" and i < len(case.get("timers", [])):
         if case["timers"][i].get("create", "init") == "init":
           self._mk_timer(i)
+      elif kind == "start" and i in self.unstarted:
+        self._start_timer(i)
+      elif kind == "advance":
+        # virtual time passes during start-up (i is the duration)
+        self._busy_to(self.clock.now + float(i))
 
   def emit(self, ev):
     self.log.append(ev)
